@@ -61,6 +61,11 @@ EDITS = {
         ("mg05", "crates/lib/mimium-lang/src/compiler/mirgen.rs", "                                Instruction::PopStateOffset(push_sum),", "                                Instruction::PopStateOffset(push_sum + 1),", "verus", "mirgen_state"),
         ("mg06", "crates/lib/mimium-lang/src/compiler/mirgen.rs", "                self.get_ctxdata().next_state_offset = Some(skeleton.total_size());\n                (Some(Instruction::Mem(a0)), vec![skeleton])", "                self.get_ctxdata().next_state_offset = Some(skeleton.total_size() + 1);\n                (Some(Instruction::Mem(a0)), vec![skeleton])", "verus", "mirgen_state"),
         ("mg07", "crates/lib/mimium-lang/src/compiler/mirgen.rs", "                self.consume_and_insert_pushoffset();\n                self.get_ctxdata().next_state_offset = Some(new_skeleton.total_size());", "                self.get_ctxdata().next_state_offset = Some(new_skeleton.total_size());", "verus", "mirgen_state"),
+        ("mg08", "crates/lib/mimium-lang/src/compiler/mirgen.rs", "                    data.push_sum = branch_push_sum;\n", "", "verus", "mirgen_state"),
+        ("mg09", "crates/lib/mimium-lang/src/compiler/mirgen.rs", "                self.get_ctxdata().push_sum = then_sum.max(else_sum);", "                self.get_ctxdata().push_sum = then_sum.min(else_sum);", "verus", "mirgen_state"),
+        ("mg10", "crates/lib/mimium-lang/src/compiler/mirgen.rs", "                let (e, _, state_e) = self.eval_block(*else_);\n                self.consume_and_insert_pushoffset();", "                let (e, _, state_e) = self.eval_block(*else_);", "verus", "mirgen_state"),
+        ("mg11", "crates/lib/mimium-lang/src/compiler/mirgen.rs", "                    std::cmp::Ordering::Equal => state_t.clone(),\n                };\n                self.get_ctxdata().push_sum", "                    std::cmp::Ordering::Equal => vec![],\n                };\n                self.get_ctxdata().push_sum", "verus", "mirgen_state"),
+        ("mg12", "crates/lib/mimium-lang/src/compiler/mirgen.rs", "                        let (r, t, s) = self.eval_expr(*t);\n                        (r, t, [states, s].concat())\n                    }\n                    None => (Arc::new(Value::None), unit!(), states),", "                        let (r, t, s) = self.eval_expr(*t);\n                        (r, t, s)\n                    }\n                    None => (Arc::new(Value::None), unit!(), states),", "verus", "mirgen_state"),
         ("am01", RT + "vm.rs", "                    let ptr = self.get_current_state().get_state_mut(1);\n                    ptr[0] = s;", "                    let ptr = self.get_current_state().get_state_mut(1);\n                    ptr[0] = v;", "kani", "runtime"),
         ("am02", RT + "vm.rs", "                    self.set_stack_range(dst as i64, v);\n                }\n                Instruction::SetState", "                    self.set_stack_range(dst as i64 + 1, v);\n                }\n                Instruction::SetState", "kani", "runtime"),
         ("am03", RT + "vm.rs", "                    let res = ringbuf.process(i, t);", "                    let res = ringbuf.process(t, i);", "kani", "runtime"),
